@@ -211,6 +211,27 @@ impl Prop for PExec {
             }
             let mut v = json!({"mode": "multi", "tree": tree, "roots": roots, "cfg": cfg, "pre": pre, "fixed": fixed, "execdir": execdir,
                                "script": script, "quit": [], "nocmd": false, "two": rng.chance(1, 4)});
+            if idx % 9 == 7 {
+                // the boundary of a command line: a probe run with plenty of equally long paths tells how many (K) fit
+                // into one invocation under this stack limit; the case itself then has K, K + 1 or K + 2 of them, so
+                // that the last invocation carries two, one or no path over - or exactly fills up
+                let len = 120 + rng.below(60);
+                let rl = *rng.pick(&[512u64 * 1024, 600 * 1024]);
+                let build = |cnt: usize| -> Value {
+                    let mut tree = vec![json!({"parent": 0, "name": str_to_json("d"), "kind": "d", "target": 0})];
+                    for j in 0..cnt {
+                        tree.push(json!({"parent": 1, "name": str_to_json(&format!("{:05}{}", j, "n".repeat(len))), "kind": "f", "target": 0}));
+                    }
+                    json!({"mode": "multi", "tree": tree, "roots": [{"spell": str_to_json("d"), "node": 1}],
+                           "cfg": {"mode": "P", "min": 1, "max": super::pwalk::NOMAX, "depth": false, "sorted": true, "prune": []},
+                           "pre": {"p": "none"}, "fixed": [], "execdir": false, "script": [], "quit": [], "nocmd": false, "two": false, "rlimit_stack": rl})
+                };
+                let probe = self.run(&build(1500));
+                let k = arr(&probe["execs"]).first().map(|e| arr(&e["argv"]).len()).unwrap_or(0);
+                if k > 10 && k < 1500 {
+                    return build(k + rng.below(3));
+                }
+            }
             if idx % 9 == 4 {
                 // many long names under a small stack limit: several invocations, also within one directory
                 v["roots"] = json!([{"spell": str_to_json(spell), "node": 1}]);
